@@ -561,4 +561,17 @@ pub mod verif {
         };
         code.build().lookup(symbol).map_err(|_| ())
     }
+
+    /// Parses one Huffman code record of the reconstruction header with the real
+    /// `HuffmanCode::parse`, builds its table as the DHT writer does and looks `symbol` up.
+    /// `Err(true)`: the record was rejected when parsed; `Err(false)`: no code for the symbol.
+    pub fn huffman_parse_build_and_lookup(
+        bitstream: &mut jxl_bitstream::Bitstream,
+        symbol: u8,
+    ) -> Result<(u8, u64, [u8; 17], usize), bool> {
+        use jxl_oxide_common::Bundle;
+        let code = crate::huffman::HuffmanCode::parse(bitstream, ()).map_err(|_| true)?;
+        let (l, b) = code.build().lookup(symbol).map_err(|_| false)?;
+        Ok((l, b, code.counts, code.values.len()))
+    }
 }
